@@ -22,4 +22,5 @@ CONSTANTS
   Alphabet = "small"
   Cfgs = {"asw"}
   Emit = FALSE
+  TwoPhase = FALSE
 INVARIANTS InstalledEqualsLatest VerifiedIffInstalled StopsExactlyAtLatest OptionsHonouredWheneverSet
